@@ -1079,8 +1079,8 @@ func ruleTDelims(p *Program, r *Reporter) {
 		}},
 		{rl.selArr, "the multi-select list parser", true, func(child bool) map[string]bool {
 			return map[string]bool{
-				cur(child, "E(lo) CloseSqBrace => SelectArraySingle{C}Node{{CHILD}Field:$1}"):                            true,
-				cur(child, "E(lo) Comma E(lo) CloseSqBrace => SelectArray{C}Node{{CHILD}Fields:[$1,$2]}"):                true,
+				cur(child, "E(lo) CloseSqBrace => SelectArraySingle{C}Node{{CHILD}Field:$1}"):             true,
+				cur(child, "E(lo) Comma E(lo) CloseSqBrace => SelectArray{C}Node{{CHILD}Fields:[$1,$2]}"): true,
 			}
 		}},
 		{rl.selObj, "the multi-select hash parser", true, func(child bool) map[string]bool {
